@@ -363,6 +363,25 @@ def run_c09(argv):
             continue
         species = net.species
         descs[label]["order"] = [s.name for s in species]
+        # species identity: the networks keep species in sets and dicts and look them up with list.index - two names denote one
+        # species exactly when they are spellings of it, and equal species hash alike
+        if label in NETS:
+            from naunet.species import Species
+            with silenced():
+                objs = [(nm, Species(nm)) for nm in names]
+            for i, (na, a) in enumerate(objs):
+                for nb, b in objs[i + 1:]:
+                    same = canon(na) == canon(nb)
+                    chk.count(("identity", label, na, nb), nontrivial=True)
+                    if (a == b) != same or (a == b and hash(a) != hash(b)):
+                        chk.violation({"kind": "species-identity", "names": sorted([na, nb])},
+                                      f"`{na}` and `{nb}`: == is {a == b}, they are {'one species' if same else 'different species'}, hashes "
+                                      f"{'agree' if hash(a) == hash(b) else 'differ'} (an index macro and an equation per distinct species: "
+                                      f"list.index and set membership have to agree with that)", input={"network": label, "names": [na, nb]})
+                        break
+                else:
+                    continue
+                break
         distinct = []
         for s in species:
             if not any(s == d for d in distinct):
@@ -427,6 +446,35 @@ def run_c09(argv):
                     compile(py, "constant_indexes.py", "exec")
                 except SyntaxError as e:
                     chk.violation({"kind": "python-syntax", "net": label}, f"constant_indexes.py is not valid Python: {e}", input=show)
+                    break
+            # the second Python module: counts and name lists of the same network
+            cpath = path / "python" / "pynaunet_model" / "constants.py"
+            if cpath.exists():
+                ns = {}
+                try:
+                    exec(compile(cpath.read_text(), "constants.py", "exec"), ns)
+                except Exception as e:
+                    chk.violation({"kind": "python-syntax", "net": label}, f"constants.py does not run: {e}", input=show)
+                    break
+                bad = None
+                if ns.get("NSPEC") != rd.nspec:
+                    bad = f"NSPEC = {ns.get('NSPEC')} but the C header has NSPECIES = {rd.nspec}"
+                elif ns.get("NELEM") != rd.nelem:
+                    bad = f"NELEM = {ns.get('NELEM')} but NELEMENTS = {rd.nelem}"
+                elif ns.get("NREAC") != len(net.reaction_list):
+                    bad = f"NREAC = {ns.get('NREAC')} for {len(net.reaction_list)} reactions"
+                elif ["IDX_" + a for a in ns.get("ALL_ALIAS", [])] != idents:
+                    bad = "ALL_ALIAS is not the list of index macros, in order"
+                elif len(ns.get("ALL_SPECIES", [])) != rd.nspec or ns.get("NGAS", 0) + ns.get("NICE", 0) != rd.nspec:
+                    bad = f"ALL_SPECIES / NGAS + NICE = {len(ns.get('ALL_SPECIES', []))} / {ns.get('NGAS')} + {ns.get('NICE')} for {rd.nspec} species"
+                elif sorted(ns.get("ALL_GAS_SPECIES", []) + ns.get("ALL_ICE_SPECIES", [])) != sorted(ns.get("ALL_SPECIES", [])):
+                    bad = "gas and ice lists do not partition the species list"
+                elif bool(ns.get("HAS_THERMAL")) != rd.thermal:
+                    bad = f"HAS_THERMAL = {ns.get('HAS_THERMAL')}"
+                if bad:
+                    chk.violation({"kind": "artefacts-differ", "pair": "macros/python-constants"},
+                                  f"pynaunet_model/constants.py disagrees with the C header: {bad} (the Python drivers size y[] with NSPEC "
+                                  f"and put the temperature at y[NSPEC])", input=show)
                     break
             elem_lines = [(n, int(v)) for n, v in rd.idx_lines if n.startswith("IDX_ELEM_")]
             if [v for _, v in elem_lines] != list(range(rd.nelem)) or len({n for n, _ in elem_lines}) != len(elem_lines):
